@@ -93,7 +93,11 @@ class Prop:
                 ops.append({"k": "gc"})
             elif x < 0.06:
                 ops.append({"k": "drop", "o": r.randrange(npool + 2)})
-            elif x < 0.09:
+            elif x < 0.075:
+                ops.append({"k": "redefine", "o": r.randrange(npool + 1),
+                            "name": r.choice(["value", "child", "children", "children", "table",
+                                              "group"])})
+            elif x < 0.10:
                 ops.append({"k": "del_attr", "o": r.randrange(npool + 1),
                             "name": r.choice(["child", "children", "children", "table", "group"])})
             elif allow_opt and x < 0.20:
@@ -168,6 +172,7 @@ class Prop:
         allow_k1 = cfg.get("allow_k1", False)
         world.allow_k3 = cfg.get("allow_k3", False)
         world.del_enabled = True
+        world.redefine_enabled = True
         self._allow_k4 = cfg.get("allow_k4", False)
         ops = trace["ops"]
         for i, op in enumerate(ops):
